@@ -189,3 +189,44 @@ Definition export_coord_f (x : f32) (size : Z) : option Z :=
 (* the same value over the reals: one binary64 rounding of the difference, then std::round *)
 Definition export_coord_R (x : R) (size : Z) : Z :=
   ZnearestA (rnd64 (x - / 2 * IZR size)).
+
+(* ------------------------------------------------------------------ the accumulations over the reals
+   (one rnd32 per C++ operation; the binary32 operations compute exactly this on finite values without overflow:
+   fadd_correct, fmul_correct in SpreadFloatProofs.v) *)
+Local Open Scope R_scope.
+(* left-to-right accumulation from d: std::accumulate (line 313) and the additions to `dem` (lines 323, 325) *)
+Definition acc_R (d : R) (xs : list R) : R := fold_left (fun a x => rnd32 (a + x)) xs d.
+Definition sum_R (xs : list R) : R := fold_right Rplus 0 xs.
+(* 0.5f * curDemand * invTotalDemand *)
+Definition inc_R (inv d : R) : R := rnd32 (rnd32 (/ 2 * d) * inv).
+(* the increments added to `dem`, in visiting order: each cell's increment twice *)
+Definition incs_R (inv : R) (visited : list R) : list R :=
+  flat_map (fun d => [inc_R inv d; inc_R inv d]) visited.
+(* the value of `dem` after k additions, for the demands ds (index order, as summed by std::accumulate) and the
+   positive demands vs in visiting order *)
+Definition dem_R (ds vs : list R) (k : nat) : R :=
+  acc_R 0 (firstn k (incs_R (rnd32 (1 / acc_R 0 ds)) vs)).
+Local Close Scope R_scope.
+
+(* ------------------------------------------------------------------ inputs of the counterexamples
+   (the statements about them are in SpreadFloatProofs.v / Properties_C06.v) *)
+(* dem = 2^-25 (1 + 2^-23) *)
+Definition wit_dem : f32 := f_of_me 8388609 (-48).
+
+(* three cells of demand 1, 32044, 57 in the bin [-117183, -117133], targets 0, 1, 2 *)
+Definition wit_targets : list f32 := [f_of_Z 0; f_of_Z 1; f_of_Z 2].
+Definition wit_demands : list Z := [1; 32044; 57]%Z.
+Definition wit_cells : list f32 :=
+  spread_cells_int_f false wit_targets wit_demands (-117183) (-117133).
+
+(* 4242 cells of demand 1 in the bin [0, 100000], targets 0, 1, 2, ...; and the final value of `dem` there *)
+Definition wit2_n : nat := 4242.
+Definition wit2_cells : list f32 :=
+  spread_cells_int_f false (map (fun i => f_of_Z (Z.of_nat i)) (seq 0 wit2_n)) (repeat 1%Z wit2_n) 0 100000.
+Definition wit2_dem_final : f32 :=
+  fst (spread_cells_state_f false (map (fun i => f_of_Z (Z.of_nat i)) (seq 0 wit2_n))
+                            (map f_of_Z (repeat 1%Z wit2_n)) (f_of_Z 0) (f_of_Z 100000)).
+
+(* four cells of demand 1994072, 1655332, 1892993, 1 (total 5542398 < 2^24) in the bin [0, 100000] *)
+Definition wit3_cells : list f32 :=
+  spread_cells_int_f false [f_of_Z 0; f_of_Z 1; f_of_Z 2; f_of_Z 3] [1994072; 1655332; 1892993; 1]%Z 0 100000.
